@@ -72,6 +72,7 @@ type State struct {
 	locals []*localObj               // heap objects allocated by this activation that have not escaped yet
 	links  []epochLink               // "allocated" havocs: how this epoch's base maps relate to an earlier epoch's
 	fwd    map[string]fwdEntry       // field maps holding a field address: the last store, forwarded to loads at the same place
+	held   map[string]*Term          // locks with an invariant currently held: "<struct pointer term>|<mutex field>" -> the struct pointer
 }
 
 // fwdEntry: "map[ptr] was just assigned val (a field address, which has no term
@@ -111,6 +112,12 @@ func (s *State) clone() *State {
 	n.defers = make(map[int][]deferred, len(s.defers))
 	for k, v := range s.defers {
 		n.defers[k] = append([]deferred(nil), v...)
+	}
+	if len(s.held) > 0 {
+		n.held = make(map[string]*Term, len(s.held))
+		for k, v := range s.held {
+			n.held[k] = v
+		}
 	}
 	if len(s.fwd) > 0 {
 		n.fwd = make(map[string]fwdEntry, len(s.fwd))
